@@ -533,20 +533,27 @@ def objStmObjects (d : Dict) (content : Bytes) : Outcome (List (ObjId × Obj)) :
     | some _ =>
       let nums := (splitWs (block.length + 1) block).map u32FromStr
       -- the pairs are collected into a `BTreeMap`: a number listed twice keeps its LAST object
-      .ok (dedupLast (pairs first nums))
+      .ok (dedupLast (pairs first nums []))
 where
-  pairs (first : Nat) : List (Option Nat) → List (ObjId × Obj)
-    | a :: b :: rest =>
-      let tail := pairs first rest
-      match a, b with
-      | some id, some off =>
-        let o := first + off
-        if o ≥ content.length then tail
-        else match parseDirect (content.drop o) with
-          | some (obj, _) => ((id, 0), obj) :: tail
-          | none => tail
-      | _, _ => tail
-    | _ => []
+  /-- `seen`: the offsets listed so far (`seen_offsets`, filled from every pair whose offset is a number, whatever its
+  object number): an offset that is listed again is ignored (lopdf fix: an object is stored once) -/
+  pairs (first : Nat) : List (Option Nat) → List Nat → List (ObjId × Obj)
+    | a :: b :: rest, seen =>
+      match b with
+      | none => pairs first rest seen
+      | some off =>
+        let dup := seen.contains off
+        let tail := pairs first rest (if dup then seen else off :: seen)
+        match a with
+        | none => tail
+        | some id =>
+          let o := first + off
+          if dup then tail
+          else if o ≥ content.length then tail
+          else match parseDirect (content.drop o) with
+            | some (obj, _) => ((id, 0), obj) :: tail
+            | none => tail
+    | _, _ => []
 
 abbrev LObjects := List (ObjId × LObj)
 
